@@ -697,6 +697,9 @@ class QueryPlanner:
             name = cte.name.parts[-1]
             self.cte_results[name] = step.result
 
+        # the expressions are planned: they are not a part of the query anymore
+        query.cte = None
+
     def check_single_integration(self, query):
         query_info = self.get_query_info(query)
 
